@@ -311,6 +311,125 @@ fn undersized_str(ctx: &Ctx) -> Stats {
     })
 }
 
+/// UTF-8 input is the one case where the decoder COPIES input to output after validating it, so
+/// a validator that accepts too much hands invalid bytes to the caller as "valid" text: the
+/// structured UTF-8 families (table sweep, adjacent pairs, runs of three) through the one-shot
+/// methods, decode_to_utf8 and decode_to_str, all outputs re-validated with std
+fn utf8_structured(ctx: &Ctx) -> Stats {
+    use crate::memgen;
+    const LANES: usize = 16;
+    let mut st = par_run(ctx, LANES, |lane, st| {
+        let mut buf = vec![0u8; 512];
+        let mut check = |bytes: &[u8], st: &mut Stats| -> bool {
+            st.evals += 1;
+            st.nontrivial_distinct();
+            let mut bad: Option<String> = None;
+            let r = fw::catch(|| {
+                let (a, _) = encoding_rs::UTF_8.decode_without_bom_handling(bytes);
+                let ok_a = std::str::from_utf8(a.as_bytes()).is_ok();
+                let b = encoding_rs::UTF_8.decode_without_bom_handling_and_without_replacement(bytes);
+                let ok_b = b.as_ref().map_or(true, |c| std::str::from_utf8(c.as_bytes()).is_ok()) && (b.is_some() == std::str::from_utf8(bytes).is_ok());
+                (ok_a, ok_b)
+            });
+            match r {
+                Err(p) => bad = Some(format!("one-shot decode panicked: {}", p)),
+                Ok((ok_a, ok_b)) => {
+                    if !ok_a {
+                        bad = Some("UTF_8.decode_without_bom_handling returned text that is not valid UTF-8".into());
+                    } else if !ok_b {
+                        bad = Some("UTF_8.decode_without_bom_handling_and_without_replacement returned Some(invalid text) or disagrees with std about validity".into());
+                    }
+                }
+            }
+            if bad.is_none() {
+                for raw in [false, true] {
+                    let mut d = encoding_rs::UTF_8.new_decoder_without_bom_handling();
+                    let need = bytes.len() * 3 + 16;
+                    if buf.len() < need {
+                        buf.resize(need, 0);
+                    }
+                    let r = fw::catch(|| {
+                        if raw {
+                            let (_, _, w) = d.decode_to_utf8_without_replacement(bytes, &mut buf[..need], true);
+                            w
+                        } else {
+                            let (_, _, w, _) = d.decode_to_utf8(bytes, &mut buf[..need], true);
+                            w
+                        }
+                    });
+                    match r {
+                        Err(p) => bad = Some(format!("decode_to_utf8 panicked: {}", p)),
+                        Ok(w) => {
+                            if w > need || std::str::from_utf8(&buf[..w]).is_err() {
+                                bad = Some(format!("decode_to_utf8{} reported {} bytes as written which are not valid UTF-8: {}", if raw { "_without_replacement" } else { "" }, w, fw::hex(&buf[..w.min(need).min(48)])));
+                            }
+                        }
+                    }
+                }
+            }
+            if let Some(m) = bad {
+                st.violations.push(Violation { msg: format!("UTF-8 bytes {}: {}", fw::hex(bytes), m), sig: "C05:utf8-structured".into(), case: json!({"kind": "c05_one_shot", "encoding": "UTF_8", "bytes_hex": fw::hex(bytes)}) });
+                return false;
+            }
+            true
+        };
+        let mut v: Vec<u8> = Vec::with_capacity(64);
+        let mut tk = 0usize;
+        let ok = memgen::utf8_run_triples(|a1, a2, s| {
+            tk += 1;
+            if tk % LANES != lane {
+                return true;
+            }
+            for (pre, tail) in [(0usize, 1usize), (13, 0), (2, 17)] {
+                v.clear();
+                v.extend((0..pre).map(|i| b'a' + i as u8));
+                v.extend_from_slice(a1);
+                v.extend_from_slice(a2);
+                v.extend_from_slice(s);
+                v.extend((0..tail).map(|i| b'A' + i as u8));
+                st.class("utf8-run-of-three");
+                if !check(&v, st) {
+                    return false;
+                }
+            }
+            !(tk % 4096 == 0 && fw::should_stop())
+        });
+        if !ok {
+            return;
+        }
+        let near = memgen::utf8_near_valid(false);
+        let reps = memgen::utf8_valid_reps();
+        for (ni, s) in near.iter().enumerate() {
+            if ni % LANES != lane {
+                continue;
+            }
+            if fw::should_stop() {
+                return;
+            }
+            for a in &reps {
+                for (k, &(pre, tail)) in memgen::PAIR_EMBED.iter().enumerate() {
+                    let src = if k % 2 == 0 { memgen::embed_pair8(a, s, pre, tail) } else { memgen::embed_pair8(s, a, pre, tail) };
+                    st.class("utf8-adjacent-pair");
+                    if !check(&src, st) {
+                        return;
+                    }
+                }
+            }
+        }
+        let ok = memgen::utf8_table_sweep(lane, LANES, |s| {
+            v.clear();
+            v.extend_from_slice(b"ab");
+            v.extend_from_slice(s);
+            v.extend_from_slice(b"cd");
+            st.class("utf8-table-sweep");
+            check(&v, st)
+        });
+        let _ = ok;
+    });
+    st.exhaustive.push("UTF-8 decoder: runs of three same-length sequences ending in each near-valid sequence, valid character x near-valid sequence pairs, the UTF-8 table sweep - through the one-shot methods and decode_to_utf8{,_without_replacement}, every output re-validated".into());
+    st
+}
+
 fn dec_check<'a>(ctx: &Ctx) -> DecCheck<'a> {
     let mut e = encs::multibyte();
     e.extend(encs::single_byte_sample());
@@ -339,6 +458,9 @@ pub fn run(ctx: &Ctx) -> i32 {
     let t0 = Instant::now();
     let mut st = one_shot_and_reuse(ctx);
     if !fw::should_stop() {
+        st.merge(utf8_structured(ctx));
+    }
+    if !fw::should_stop() {
         st.merge(undersized_str(ctx));
         st.exhaustive.push("40 encodings x with/without BOM sniffing x every atom and atom pair (up to 5 bytes) x every cut incl. the empty final call x &mut str destinations of 0..=3 bytes for the first / second / both chunks (64 bytes otherwise) x 3 filler texts x decode_to_str / decode_to_str_without_replacement, and Strings with 0..=3 spare bytes (spare capacity pre-filled with invalid bytes) x decode_to_string / decode_to_string_without_replacement".into());
     }
@@ -364,6 +486,46 @@ pub fn replay(case: &serde_json::Value) -> Option<Vec<Violation>> {
     match case.get("kind").and_then(|k| k.as_str()) {
         Some("mem") => memfam::replay_mem(case, "C05", false),
         Some("dec_history") => dech::replay_with(case, &dech::verdict_c05),
+        Some("c05_one_shot") => {
+            let enc = encs::by_const(case.get("encoding")?.as_str()?)?;
+            let bytes = fw::unhex(case.get("bytes_hex")?.as_str()?);
+            let mut bad: Option<String> = None;
+            let r = fw::catch(|| {
+                let (a, _, _) = enc.decode(&bytes);
+                let (b, _) = enc.decode_with_bom_removal(&bytes);
+                let (c, _) = enc.decode_without_bom_handling(&bytes);
+                let d = enc.decode_without_bom_handling_and_without_replacement(&bytes);
+                let mut v = vec![a.into_owned().into_bytes(), b.into_owned().into_bytes(), c.into_owned().into_bytes()];
+                if let Some(d) = d {
+                    v.push(d.into_owned().into_bytes());
+                }
+                v
+            });
+            match r {
+                Err(p) => bad = Some(format!("one-shot decode panicked: {}", p)),
+                Ok(v) => {
+                    for (i, b) in v.iter().enumerate() {
+                        if std::str::from_utf8(b).is_err() {
+                            bad = Some(format!("one-shot decode method #{} returned invalid UTF-8: {}", i, fw::hex(b)));
+                        }
+                    }
+                }
+            }
+            for raw in [false, true] {
+                let mut d = enc.new_decoder_without_bom_handling();
+                let mut buf = vec![0u8; bytes.len() * 3 + 16];
+                let r = fw::catch(|| if raw { d.decode_to_utf8_without_replacement(&bytes, &mut buf, true).2 } else { d.decode_to_utf8(&bytes, &mut buf, true).2 });
+                if let Ok(w) = r {
+                    if w > buf.len() || std::str::from_utf8(&buf[..w]).is_err() {
+                        bad = Some(format!("decode_to_utf8{} reported {} bytes as written which are not valid UTF-8", if raw { "_without_replacement" } else { "" }, w));
+                    }
+                }
+            }
+            Some(match bad {
+                None => vec![],
+                Some(m) => vec![Violation { msg: format!("{} bytes {}: {}", enc.name(), fw::hex(&bytes), m), sig: "C05:one-shot".into(), case: case.clone() }],
+            })
+        }
         Some("c05_undersized_string") => {
             let enc = encs::by_const(case.get("encoding")?.as_str()?)?;
             let stream = fw::unhex(case.get("stream_hex")?.as_str()?);
